@@ -24,6 +24,7 @@ TrPad == Cfg.pad
 TrConcat == Cfg.concat
 TrMemT == Cfg.memt
 TrOutOvh == Cfg.outovh
+TrMemStop == Cfg.memstop
 
 VARIABLE l
 tvars == <<vars, l>>
@@ -87,6 +88,8 @@ TEndDone == IsEvent("EndDone") /\ EndJoin /\ m.loopI >= m.nInit
 TAppEnd == IsEvent("AppEnd") /\ AppEnd
 TAppReinit == IsEvent("AppReinit") /\ AppReinit
 TReinited == IsEvent("Reinited") /\ Ev.a = 0 /\ m.pc = "out" /\ m.given = 0 /\ m.seq = "HDR" /\ UNCHANGED vars
+\* lzma_memlimit_set(strm, lzma_memusage(strm)) after LZMA_MEMLIMIT_ERROR: a = the new limit, b = its return value
+TAppRaise == IsEvent("MemlimitSet") /\ Ev.b = 0 /\ AppRaise(Ev.a)
 TFreed == IsEvent("Freed") /\ m.pc = "freed" /\ UNCHANGED vars
 
 TWCheck == /\ IsEvent("WCheck")
@@ -117,7 +120,7 @@ TWFinCoder == /\ IsEvent("WFinCoder") /\ WFinCoder(Ev.w)
               /\ Ev.nsig >= 1
 
 Logged == TReset \/ TCall \/ TRet \/ TRW \/ TRWWake \/ TRWTimeout \/ TStop \/ TStopDone \/ TCreate \/ TTiSetup
-          \/ TTiStart \/ TTiPartial \/ TCopy \/ TPublish \/ TEndSignal \/ TEndJoin \/ TEndDone \/ TAppEnd \/ TAppReinit \/ TReinited \/ TFreed
+          \/ TTiStart \/ TTiPartial \/ TCopy \/ TPublish \/ TEndSignal \/ TEndJoin \/ TEndDone \/ TAppEnd \/ TAppReinit \/ TAppRaise \/ TReinited \/ TFreed
           \/ TWCheck \/ TWWake \/ TWDecode \/ TWPublish \/ TWFinThr \/ TWFreeIn \/ TWFinCoder
 
 \* Direct mode: the Block decoder runs in the main thread without any hook.  A call that completes the Block
